@@ -1,0 +1,27 @@
+//go:build verif
+
+package discovery
+
+import (
+	"bufio"
+	"os"
+)
+
+// ServerListFromVERIFFILE is a discovery plug-in module (see package doc of
+// discovery.go) only present in verification builds: it reads the server list
+// from the file named in the module options ("--discovery veriffile:/path"),
+// so that the /regex/ filter, which only applies to plug-in modules, can be
+// exercised from outside.
+func (d *Discovery) ServerListFromVERIFFILE() (servers []string) {
+	file, err := os.Open(d.options)
+	if err != nil {
+		return nil
+	}
+	defer file.Close()
+	scanner := bufio.NewScanner(file)
+	scanner.Buffer(make([]byte, 1024*1024), 64*1024*1024)
+	for scanner.Scan() {
+		servers = append(servers, scanner.Text())
+	}
+	return
+}
